@@ -150,6 +150,8 @@ def build_ds(dd, base=0):
     ds = Dataset()
     for i, key in enumerate(dd["vars"]):
         ds[key] = build_var(dd, key, base + i)
+    for ad in dd.get("extra_axes", []):
+        ds.axes.append(build_axis(ad))          # a standalone axis: no variable uses it
     for k, v in dd["attrs"].items():
         ds.attrs[k] = dec_attr(v)
     return ds
@@ -277,6 +279,13 @@ class C19(Prop):
             dd = gen_ds(rng, rich=True)
             akinds, lkinds = ["f", "i", "O"], ["i", "f", "O"]
         steps = [self.gen_first(rng, dd)]
+        if steps[0]["how"] == "dataset" and rng.random() < 0.15:
+            # an axis of the Dataset that none of its variables uses (ds.axes.append): it is written and read back too
+            free = [d for d in gen.DIMS + ["t"] if d not in dd["dims"]]
+            kind = rng.choice(lkinds)
+            ax = gen.clean(gen.rand_axis(rng, free[0], kind=kind, n=rng.randint(1, 3)))
+            ax["attrs_py"] = attrs_for(rng, 1)
+            dd["extra_axes"] = [ax]
         present = {k: v for k, v in dd["vars"].items()}
         # append more variables by the other entry points
         for j in range(rng.randint(0, 2 if tier == "quick" else 3)):
